@@ -87,3 +87,38 @@ Example C14_mirror_instance :
   | _ => False
   end.
 Proof. vm_compute. reflexivity. Qed.
+
+(* ---------- WriteArray ---------- *)
+From KV Require Import Proofs.ArrayProofs.
+
+(* every path of WriteArray (byte loop, bulk copies into the buffer, 256-bit and 64-bit combining
+   loops, tail) appends exactly the first [count] bits of the byte string, in every reachable state *)
+Theorem C14_write_array : forall s bits count, AWF s -> bytes_ok bits -> 0 < count -> count <= 8 * N.of_nat (length bits) ->
+  exists s', write_array healthy s bits count = (s', false) /\ AWF s' /\
+    oval s' = oval s * 2 ^ count + topbits bits count /\ onbits s' = onbits s + count.
+Proof. exact write_array_spec. Qed.
+Print Assumptions C14_write_array.
+
+(* every program over WriteBit / WriteBits / WriteArray, any buffer size (multiple of 8, at least
+   40), then Close: the byte image is the concatenation of what was written, padded with < 8 zero bits,
+   and Written() is the number of bits written *)
+Theorem C14_array_image : forall bufsize ops, 40 <= bufsize -> bufsize mod 8 = 0 -> Forall aop_ok ops ->
+  exists s1 s2 pad V L,
+    run_aops (new_obs bufsize) ops = (s1, false) /\ close healthy s1 = (s2, false) /\
+    (V, L) = fold_left abv_app ops (0, 0) /\
+    o_closed s2 = true /\ pad < 8 /\
+    8 * N.of_nat (length (o_out s2)) = L + pad /\
+    be_val (o_out s2) = V * 2 ^ pad /\
+    written s2 = Z.of_N L.
+Proof. exact array_image. Qed.
+Print Assumptions C14_array_image.
+
+Example C14_array_instance :
+  let ops := [AOp (WBits 5 3); AArr [171; 205; 239; 1; 35; 69; 103; 137; 154; 188; 222; 240] 93; AOp (WBit 1); AArr [255; 0; 255] 24] in
+  match run_aops (new_obs 40) ops with
+  | (s1, false) => match close healthy s1 with
+                   | (s2, false) => o_out s2 = [181; 121; 189; 224; 36; 104; 172; 241; 51; 87; 155; 222; 255; 128; 127; 128] /\ written s2 = 121%Z
+                   | _ => False end
+  | _ => False
+  end.
+Proof. vm_compute. split; reflexivity. Qed.
